@@ -80,6 +80,17 @@ func dataPtr(sl []int) unsafe.Pointer {
 	return unsafe.Pointer(unsafe.SliceData(sl[:1]))
 }
 
+// overlap: do the backing arrays (up to capacity) of two slices share any element?
+func overlap(a, b []int) bool {
+	if cap(a) == 0 || cap(b) == 0 {
+		return false
+	}
+	const sz = unsafe.Sizeof(int(0))
+	a0, b0 := uintptr(dataPtr(a)), uintptr(dataPtr(b))
+	a1, b1 := a0+uintptr(cap(a))*sz, b0+uintptr(cap(b))*sz
+	return a0 < b1 && b0 < a1
+}
+
 func (s *jsession) classify(sl []int) string {
 	p := dataPtr(sl)
 	if p == dataPtr(s.buffer()[:cap(s.buffer())]) {
@@ -197,10 +208,17 @@ func (s *jsession) onOutput(sl []int) {
 		for _, k := range s.kept {
 			if len(k) > 0 && dataPtr(k) == dataPtr(sl) {
 				s.fail("C08 copy mode: two delivered slices share memory")
+			} else if overlap(k, sl) {
+				// a delivered slice is the consumer's with its spare capacity: `append` writes there
+				s.fail("C08 copy mode: the memory of two delivered slices overlaps (the spare capacity of one covers the other): appending to one changes the other")
 			}
 		}
 		s.kept = append(s.kept, sl)
 		s.keptCopy = append(s.keptCopy, cp)
+		// the slice is the consumer's, spare capacity included (`append` would use it)
+		for ext, i := sl[:cap(sl)], len(sl); i < len(ext); i++ {
+			ext[i] = -7777
+		}
 	}
 	s.checkSizes(cp)
 }
@@ -311,7 +329,13 @@ func (s *jsession) exec(op string) string {
 		e, _ := strconv.ParseInt(t[1], 10, 64)
 		s.setPassAt(time.Now().Add(-time.Duration(e)))
 		s.paBefore = s.getPassAt()
+		pa := s.getPassAt()
 		if s.timeouted() {
+			// C09: a ticker firing cuts a slice short only when Timeout has elapsed since passAt;
+			// measured AFTER the test returned, so the elapsed time at the test was not larger
+			if el := time.Since(pa); el < s.timeout {
+				s.fail("C09 the timeout test succeeds %v after the previous delivery (passAt), Timeout %v: a short slice would be delivered early", el, s.timeout)
+			}
 			s.ticked = true
 			s.call(s.pass)
 		}
